@@ -22,6 +22,7 @@ import NV.C07.Spec
 import NV.C07.WF
 import NV.C07.Build
 import NV.C07.LemmasBuild
+import NV.C07.Compress
 
 namespace NV.C07
 
@@ -99,6 +100,7 @@ def parseDump (lines : List String) : Dump :=
       match parseTbl line with
       | some r => { d with raws := r :: d.raws, lines := line :: d.lines }
       | none => { d with bad := line :: d.bad }
+    | "cmp" :: _ => { d with lines := line :: d.lines }
     | ["obj", oid, p] => { d with objs := (oid, p) :: d.objs, lines := line :: d.lines }
     | ["ld", oid, "!fail"] => { d with failed := oid :: d.failed }
     | _ => d) {}
@@ -264,6 +266,20 @@ def runModel (body : List String) : List String :=
               -- the dumped line
               renderTbl w { P with id := ((parseTbl l).map (·.id)).getD P.id }
             | none => s!"tbl {name} not-in-case"
+          | "cmp" :: name :: _ =>
+            -- the COMPRESSED table is computed by the model of compress_function_tables from the model-built table;
+            -- the decidable hypothesis of `find_func_entry_compress` is evaluated on it (a violation is made visible in
+            -- the compared line), and so is the round trip itself
+            match w.progs.find? (·.name == name) with
+            | some P =>
+              let t := RTab.ofProgram P
+              let c := compress t
+              let wf := if t.cmpWF then "" else "!cmpwf"
+              let rtOk := match c with
+                | some c => decompress P.inherit c P.rt.length == P.rt.map some
+                | none => false
+              renderCmp (name ++ wf ++ (if rtOk then "" else "!roundtrip")) c
+            | none => s!"cmp {name} not-in-case"
           | _ => l
         { s with out := (lines.map Ev.line).reverse ++ s.out }
       | .call o oid fn =>
